@@ -223,8 +223,15 @@ def rand_info(rng, allow_empty=False):
     nc = rng.choice([0, 1, 1, 2])
     if not allow_empty and ne == 0 and nc == 0:
         ne = 1
+    es = []
+    for _ in range(ne):
+        e = rand_expr_text(rng, rng.choice([0, 0, 1, 2, 3]))
+        # one source keeps its expressions in a set of parsed objects whose equality ignores order and repetition of
+        # operands; expressions with different symbol sets can never coincide, so the ground truth stays exact
+        if all(set(expr_keys(e)) != set(expr_keys(x)) for x in es):
+            es.append(e)
     return {
-        "e": [rand_expr_text(rng, rng.choice([0, 0, 1, 2, 3])) for _ in range(ne)],
+        "e": es,
         "c": ["%d %s" % (rng.randint(1990, 2025), rng.choice(HOLDERS)) for _ in range(nc)],
     }
 
@@ -387,6 +394,15 @@ def opt_creators(case, key):
     return person, org
 
 
+def tv_verdict(doc):
+    """verdict of the harness reader in the form the driver's reader answers: entries:FileName entries, or none"""
+    try:
+        es = read_tv(doc)
+    except NotTagValue:
+        return "none"
+    return "%d:%d" % (len(es), sum(1 for e in es if e[0] == "FileName"))
+
+
 def canon_doc(out):
     """uuid and time stamp are parameters of the model: replace them where the header has them"""
     lines = out.split("\n")
@@ -417,7 +433,7 @@ class TreeStream(Stream):
         self.cache = {}
 
     def cases(self, tier, rng):
-        n = 260 if tier == "thorough" else 28
+        n = 1500 if tier == "thorough" else 100
         for i in range(n):
             yield gen_tree(rng)
 
@@ -451,6 +467,7 @@ class TreeStream(Stream):
                     if not out.endswith("\n\n"):
                         run["exc"] = "output does not end with the echo newline"
                     run["doc"] = canon_doc(out[:-1])
+                    run["tv"] = tv_verdict(run["doc"])
                 else:
                     run["doc"] = None
                     run["usage"] = ("Usage:" in out) and ("--add-license-concluded" in out)
@@ -468,6 +485,7 @@ class TreeStream(Stream):
                         written = "unreadable: %s" % e
                     res["runs"][key + "+o"] = {"exit": code2, "exc": None if exc2 is None else type(exc2).__name__,
                                                "doc": canon_doc(written[:-1]), "stdout": out2}
+                    res["runs"][key + "+o"]["tv"] = tv_verdict(res["runs"][key + "+o"]["doc"])
                     if case["out"] == "inside":
                         os.unlink(target)
         return res
@@ -522,10 +540,18 @@ class TreeStream(Stream):
 
     def model_lines(self, case):
         res = self.cache[self.key(case)]
-        return [self.model_inputs(case, k.replace("+o", ""), res) for k in sorted(res["runs"])]
+        lines = [self.model_inputs(case, k.replace("+o", ""), res) for k in sorted(res["runs"])]
+        # the Lean grammar (Spec.readDoc, the one C18_wellformed is about) reads the REAL documents
+        for k in sorted(res["runs"]):
+            if res["runs"][k].get("doc") is not None:
+                lines.append("tvdoc\t" + enc_list(res["runs"][k]["doc"].split("\n")))
+        return lines
 
     def model_out(self, case, outs):
         res = json.loads(json.dumps(self.cache[self.key(case)]))
+        with_doc = [k for k in sorted(res["runs"]) if res["runs"][k].get("doc") is not None]
+        for k, o in zip(with_doc, outs[len(res["runs"]):]):
+            res["runs"][k]["tv"] = o
         for k, o in zip(sorted(res["runs"]), outs):
             run = res["runs"][k]
             if o == "usage-error":
